@@ -74,6 +74,13 @@ let is_ws_only (l : BinNums.coq_N list) : bool =
 let () =
   (* valparse <text|attr> <named table> <input: the value text followed by the rest of the source> *)
   register "valparse" (function
+    | ["diag"; _; t] ->
+        (match ExprParse.binding_d false (dec_str t) with
+         | ((_, _), ExprParse.DOk) -> "ok"
+         | ((_, _), ExprParse.DEmpty) -> "empty"
+         | ((_, _), ExprParse.DGarbage) -> "garbage"
+         | ((_, _), ExprParse.DMissingEnd w) -> if w then "missingend:1" else "missingend:0"
+         | ((_, _), ExprParse.DInner w) -> if w then "inner:1" else "inner:0")
     | ["tdata"; _; t] ->
         (match ExprParse.data_attr_value (n_of_int 34) (dec_str t) with
          | Some e -> "(dyn " ^ sexp_of_expr e ^ ")"
